@@ -1117,8 +1117,7 @@ CHECK_DEADLOCK FALSE
 """
 
 
-def c20_expect(tokens, ka, rate, rtimeout, rmax):
-    """statement-level expectation for an arrival pattern, robust to +-1 s; None = no expectation"""
+def c20_scan(tokens):
     tick = 0
     pkts = [0]            # the handshake completes at tick 0
     part_start = None
@@ -1134,27 +1133,54 @@ def c20_expect(tokens, ka, rate, rtimeout, rmax):
             if part_start is None:
                 part_start = tick
             last_bytes = tick
-    n = tick
+    return tick, pkts, part_start, last_bytes
+
+
+def c20_pad(tokens, ka, rate, rtimeout):
+    """the model stops ticking when the connection has ended; the real run keeps watching until the
+    verdict is robust: silence is appended until KA + 2 (read timeout + 2) ticks after the last arrival"""
+    n, pkts, part_start, last_bytes = c20_scan(tokens)
+    if rate > 0 and part_start is not None:
+        want = last_bytes + 2 * rtimeout + 3
+    elif ka > 0:
+        want = pkts[-1] + ka + 3
+    else:
+        want = n
+    return list(tokens) + ["T"] * max(0, want - n)
+
+
+def c20_expect(tokens, ka, rate, rtimeout, rmax):
+    """statement-level expectation for an arrival pattern, robust to +-1 s; None = no expectation"""
+    n, pkts, part_start, last_bytes = c20_scan(tokens)
     last = pkts[-1]
     gaps = [b - a for a, b in zip(pkts, pkts[1:])] + [n - last]
     if rate > 0 and part_start is not None:
         # a partial frame is pending: read-rate rules apply
-        if n - last_bytes >= rtimeout + 2 and last_bytes == part_start:
+        if n - last_bytes >= 2 * rtimeout + 3 and last_bytes == part_start:
+            # one burst, then silence: the read timer expires one period after the burst, or two if the
+            # burst itself was above the rate (the statement fixes the reason, not the exact period)
             t = part_start + rtimeout
-            return ("expect_read", (t - 1) * 1000 - 500, (t + 1) * 1000 + 900)
+            return ("expect_read", (t - 1) * 1000 - 500, (t + rtimeout + 2) * 1000 + 900)
         return None
     if ka > 0 and max(gaps) <= ka - 2:
         return ("expect_alive", 0, 0)
-    if ka > 0 and n - last >= ka + 2 and all(g <= ka - 2 for g in gaps[:-1]):
+    if ka > 0 and n - last >= ka + 3 and all(g <= ka - 2 for g in gaps[:-1]):
         t = last + ka
-        return ("expect_ka", (t - 1) * 1000 - 500, (t + 1) * 1000 + 900)
+        return ("expect_ka", (t - 1) * 1000 - 500, (t + 2) * 1000 + 900)
     return None
 
 
 def c20_decode_for(ver, cka, rate, rmax):
     ka = cka + cka // 2        # server keep-alive = 1.5 x the client's value
 
+    # the frame that arrives in pieces is a PUBLISH with a 200 byte topic and no payload: nothing of it
+    # reaches the dispatcher before its last byte (a payload would be streamed, and the dispatcher
+    # counts a decoded PUBLISH header as traffic)
+    frame = {"t": "publish", "q": 0, "topic": "t" * 200, "plen": 0}
+    flen = 205 if ver == 3 else 206      # 30 ca 01 00 c8 't'*200 [00]
+
     def dec(tokens, variant):
+        tokens = c20_pad(tokens, ka, rate, 1)
         exp = c20_expect(tokens, ka, rate, 1, rmax)
         if exp is None:
             exp = ("no_expectation", 0, 0)      # still replayed: nothing may panic
@@ -1163,26 +1189,28 @@ def c20_decode_for(ver, cka, rate, rmax):
             cfg.update(read_rate=rate, read_rate_timeout=1, read_rate_max=rmax)
         cmds = [{"c": "in", "p": {"t": "connect", "ka": cka}},
                 {"c": "mark", "k": exp[0], "n": exp[1], "r": exp[2]}]
-        partial = False
+        sent = 0          # bytes of the PUBLISH frame delivered so far (0 = no partial frame pending)
         for tk in tokens:
             if tk == "T":
                 cmds.append({"c": "sleep", "ms": 1000})
-            elif tk == "P":
-                if partial:
-                    return None, None        # (the model completes the frame; keep replays simple)
-                cmds.append({"c": "in", "p": {"t": "pingreq"}})
-            elif tk == "Q":
-                if partial:
-                    return None, None
-                cmds.append({"c": "in", "pkts": [{"t": "pingreq"}, {"t": "publish", "q": 0, "topic": "t", "plen": 200, "send": 0}], "upto": 4})
-                partial = True
+            elif tk in ("P", "Q"):
+                if sent:
+                    # the rest of the pending frame arrives: a complete packet that came in pieces
+                    cmds.append({"c": "in", "p": frame, "from": sent})
+                    sent = 0
+                    if tk == "Q":
+                        cmds.append({"c": "in", "p": frame, "upto": 2})
+                        sent = 2
+                elif tk == "P":
+                    cmds.append({"c": "in", "p": {"t": "pingreq"}})
+                else:
+                    cmds.append({"c": "in", "pkts": [{"t": "pingreq"}, frame], "upto": 4})
+                    sent = 2
             else:
                 nbytes = int(tk[1:])
-                if not partial:
-                    cmds.append({"c": "in", "p": {"t": "publish", "q": 0, "topic": "t", "plen": 200, "send": 0}, "upto": min(nbytes, 5)})
-                    partial = True
-                else:
-                    cmds.append({"c": "in", "p": {"t": "payload", "n": nbytes}})
+                upto = min(sent + nbytes, flen - 1)
+                cmds.append({"c": "in", "p": frame, "from": sent, "upto": upto})
+                sent = upto
         return cfg, cmds
     return dec
 
@@ -1190,12 +1218,42 @@ def c20_decode_for(ver, cka, rate, rmax):
 def c20_configs(tier):
     cs = []
     for ver in (3, 5):
-        for cka, rate, rmax, maxt in ((2, 0, 2, 7), (2, 4, 2, 6)):
+        for cka, rate, rmax, maxt in ((2, 0, 2, 7), (2, 4, 2, 6), (4, 4, 2, 6)):
             ka = cka + cka // 2
             cs.append((f"v{ver}_ka{cka}_r{rate}",
                        TIMERS_CFG.format(ka=ka, rate=rate, rmax=rmax, maxt=maxt, fixed="TRUE", dead="INVARIANT Dead\nINVARIANT NoNegative\nINVARIANT Slow"),
                        "Timers", c20_decode_for(ver, cka, rate, rmax), [None]))
     return cs
+
+
+def c20_select(name, hists, tier, seed, quota):
+    """replay set of one configuration: patterns that differ only in trailing silence are one run; patterns
+    with a timeout expectation and patterns in which a packet arrives in pieces come first"""
+    import hashlib
+    parts = name.split("_")          # v5_ka2_r4
+    cka, rate = int(parts[1][2:]), int(parts[2][1:])
+    ka = cka + cka // 2
+    seen, prio, rest = set(), [], []
+    for h in hists:
+        toks = json.loads(h)
+        padded = tuple(c20_pad(toks, ka, rate, 1))
+        if padded in seen:
+            continue
+        seen.add(padded)
+        exp = c20_expect(list(padded), ka, rate, 1, 2)
+        pieces = any(t.startswith("B") for t in toks) and any(
+            t in ("P", "Q") and any(x.startswith("B") or x == "Q" for x in toks[:i]) for i, t in enumerate(toks))
+        key = hashlib.sha256((h + str(seed)).encode()).hexdigest()
+        if exp and (exp[0] in ("expect_ka", "expect_read") or pieces):
+            prio.append((key, h))
+        else:
+            rest.append((key, h))
+    prio.sort()
+    rest.sort()
+    half = max(1, quota * 2 // 3)
+    pick = [h for _, h in prio[:half]]
+    pick += [h for _, h in rest[:max(0, quota - len(pick))]]
+    return set(pick)
 
 
 def c20_extra(tier, rnd):
@@ -1216,9 +1274,9 @@ def c20_extra(tier, rnd):
 
 
 reg(dict(
-    name="timers", judge="TimerJudge", configs=c20_configs, extra_runs=c20_extra,
+    name="timers", judge="TimerJudge", configs=c20_configs, extra_runs=c20_extra, select=c20_select,
     signature=lambda v: f"{v['why']}|v{v['cfg']['ver']}|{v['cfg']['role']}|rate{v['cfg'].get('read_rate', 0)}",
-    level={}, quota=14, quota_thorough=400, tail_cmds=(),
+    level={}, quota=24, quota_thorough=400, tail_cmds=(),
     rule="Timers.tla (update_timer / handle_timeout on a 1 s clock) is checked exhaustively by TLC over every arrival "
          "pattern of <= 7 ticks (complete packet, complete packet followed by the start of the next frame in the same "
          "read, 1 or 8 more bytes of a partial frame, silence) for keep-alive 3 s with and without a read rate: "
@@ -1226,7 +1284,7 @@ reg(dict(
          "under real time on v3 and v5 servers (quick: a seeded dozen per configuration, thorough: up to 400), plus "
          "connect timeout, server keep-alive override and client PINGREQ runs; TimerMon judges time and reason of the end",
     assumptions=[
-        "real time with 1 s ticks and +-1 s tolerance; sub-second timer behaviour is outside the claim",
+        "real time with 1 s ticks; a timeout due at tick t is accepted in [t-1.5 s, t+2.9 s] (timer wheel granularity of 1 s plus observation at the next tick); sub-second timer behaviour is outside the claim",
         "expectations are computed from the statement by the generator, the model's own verdict is only used for conformance statistics",
     ]), ["C20"])
 
